@@ -24,6 +24,7 @@ import abc
 import sys
 import types
 from itertools import zip_longest
+import keyword
 import itertools
 import collections
 from functools import partial
@@ -1039,7 +1040,11 @@ def _mask(sig, num_args, hide_args, hide_kwargs,
                 .format(kwarg_name, sig))
         elif partial_mode and not (
                 varargs and varargs.name == kwarg_name
-                or varkwargs.name == kwarg_name):
+                or varkwargs.name == kwarg_name
+                or not kwarg_name.isidentifier()
+                or keyword.iskeyword(kwarg_name)):
+            # (a keyword that cannot be the name of a parameter, such as
+            # 'class' or 'data-id', is just absorbed by **kwargs)
             kwoargs[kwarg_name] = UpgradedParameter(
                 kwarg_name, _util.funcsigs.Parameter.KEYWORD_ONLY,
                 default=named_args[kwarg_name])
